@@ -677,7 +677,7 @@ def main():
     quick = a.tier == 'quick'
     check_cases(corpus(), R, sample_from=1)
     R.count('corpus', len(corpus()))
-    nq, nf = (700, 200) if quick else (12000, 3000)
+    nq, nf = (700, 200) if quick else (6000, 1500)
     check_cases([gen_case(rng, big=not quick, mode='Q') for _ in range(nq)], R, sample_from=2)
     check_cases([gen_case(rng, big=not quick, mode='F') for _ in range(nf)], R, sample_from=1)
     if a.broken or R.d['disagreements']:
